@@ -17,6 +17,11 @@ static inline _Bool spec_sha1_is_compress(const uint32_t *out, uint32_t h0, uint
     spec_sha1_compress(H, m);
     return out[0] == H[0] && out[1] == H[1] && out[2] == H[2] && out[3] == H[3] && out[4] == H[4];
 }
+static inline _Bool spec_sha1_is_compress_ord(const uint32_t *out, uint32_t h0, uint32_t h1, uint32_t h2, uint32_t h3, uint32_t h4, const unsigned char *m) {
+    uint32_t H[5] = { h0, h1, h2, h3, h4 };
+    spec_sha1_compress_ord(H, m);
+    return out[0] == H[0] && out[1] == H[1] && out[2] == H[2] && out[3] == H[3] && out[4] == H[4];
+}
 static inline _Bool spec_sha256_is_compress(const uint32_t *out, uint32_t h0, uint32_t h1, uint32_t h2, uint32_t h3, uint32_t h4, uint32_t h5, uint32_t h6, uint32_t h7, const unsigned char *m) {
     uint32_t H[8] = { h0, h1, h2, h3, h4, h5, h6, h7 };
     spec_sha256_compress(H, m);
@@ -70,7 +75,11 @@ static inline _Bool spec_sha512_is_compress(const unsigned long long *out, uint6
 #else
 void SHA1_Transform(sha1_quadbyte state[5], const sha1_byte buffer[64])
 V_SHA1_TRANSFORM_FRAME()
+#ifdef VERIF_SHA1_MONOLITHIC
 V_ENSURES_FUNCTIONAL(spec_sha1_is_compress(state, V_OLD(state[0]), V_OLD(state[1]), V_OLD(state[2]), V_OLD(state[3]), V_OLD(state[4]), (const unsigned char *)buffer)) /*@C18.SHA1_Transform.equals_fips180_4_compression*/
+#else
+V_ENSURES_FUNCTIONAL(spec_sha1_is_compress_ord(state, V_OLD(state[0]), V_OLD(state[1]), V_OLD(state[2]), V_OLD(state[3]), V_OLD(state[4]), (const unsigned char *)buffer)) /*@C18.SHA1_Transform.equals_fips180_4_compression_in_the_summation_order_of_the_round_lemma*/
+#endif
 ;
 
 void sha256_transf(sha256_ctx *ctx, const unsigned char *message, unsigned int block_nb)
